@@ -60,6 +60,7 @@ from bitstring import Bits, BitArray, ConstBitStream, BitStream
 from rv import util
 from rv.util import CLASSES, call, rb
 
+AMBIENT = ['bytealigned', 'mxfp_overflow']      # options this property does not depend on: a quarter of the cases run with them switched
 PROP = 'C13'
 SHARDS = {'quick': 4, 'thorough': 16}
 RULE = ("object cases: 2 or 3 objects, each = class x construction route (~40 routes incl. real files) x "
